@@ -566,7 +566,6 @@ func rulePNoLibParse(p *Program, r *Reporter) {
 	}
 }
 
-
 // anyTypedBuiltins: helpers (by canonical name) of the built-ins whose argument may be any JSON value, null included.
 var anyTypedBuiltins = map[string]string{
 	"evaluator.typeName": "type(null) is \"null\"",
